@@ -24,7 +24,7 @@ Has(s, k) == k \in DOMAIN s.entries
 RECURSIVE VDefault(_), VApply(_, _, _), VMerge(_, _, _), VReset(_, _, _),
           VValidateOp(_, _, _), VValidateMerge(_, _, _),
           MapApply(_, _, _), MapApplyRm(_, _, _, _), MapApplyRmAll(_, _, _),
-          MapMerge(_, _, _), MapReset(_, _, _), MapValidateOp(_, _, _), MapValidateMerge(_, _, _)
+          MapMerge(_, _, _), MapReset(_, _, _), MapValidateOp(_, _, _), MapValidateMerge(_, _, _), MapVMPair(_, _, _, _, _)
 
 \* ---- dispatch on the value type (the trait methods of V) ----------------
 VDefault(d) == IF d.t = "mv" THEN MvDefault ELSE IF d.t = "or" THEN OrDefault ELSE MapDefault
@@ -109,15 +109,20 @@ MapValidateOp(e, s, op) ==
   ELSE LET v == IF Has(s, op.key) THEN s.entries[op.key].val ELSE VDefault(e) IN
        IF VValidateOp(e, v, op.op) # "Ok" THEN "Value" ELSE "Ok"
 
-\* CvRDT::validate_merge (map.rs:212-235)
-MapValidateMerge(e, s, o) ==
-  IF \E k1 \in DOMAIN s.entries, k2 \in DOMAIN o.entries, a \in Actors :
-        k1 # k2 /\ s.entries[k1].clock[a] > 0 /\ o.entries[k2].clock[a] = s.entries[k1].clock[a]
+\* CvRDT::validate_merge (map.rs:212-235): two nested loops over the keys of both maps in key order; the FIRST pair
+\* that has a complaint decides which error is reported (a dot of our entry k1 that is the current dot of the same actor
+\* in their entry k2 # k1 -> DoubleSpentDot; k1 = k2 with concurrent entry clocks and conflicting values -> Value)
+MapVMPair(e, s, o, k1, k2) ==
+  IF k1 # k2 /\ \E a \in Actors : s.entries[k1].clock[a] > 0 /\ o.entries[k2].clock[a] = s.entries[k1].clock[a]
   THEN "DoubleSpentDot"
-  ELSE IF \E k \in DOMAIN s.entries :
-            Has(o, k) /\ Concurrent(s.entries[k].clock, o.entries[k].clock)
-            /\ VValidateMerge(e, s.entries[k].val, o.entries[k].val) # "Ok"
+  ELSE IF k1 = k2 /\ Concurrent(s.entries[k1].clock, o.entries[k2].clock)
+          /\ VValidateMerge(e, s.entries[k1].val, o.entries[k2].val) # "Ok"
   THEN "Value" ELSE "Ok"
+MapValidateMerge(e, s, o) ==
+  LET bad == {p \in (DOMAIN s.entries) \X (DOMAIN o.entries) : MapVMPair(e, s, o, p[1], p[2]) # "Ok"} IN
+  IF bad = {} THEN "Ok"
+  ELSE LET m == CHOOSE p \in bad : \A q \in bad : p[1] < q[1] \/ (p[1] = q[1] /\ p[2] <= q[2])
+       IN MapVMPair(e, s, o, m[1], m[2])
 
 \* ---- reads (map.rs:325-353, 473-565) ------------------------------------
 MapKeys(s) == DOMAIN s.entries
